@@ -114,7 +114,8 @@ def witness_inputs(prop):
     """known findings of this property that carry a concrete input witness: (id, text, cfg or None, cursors or None, witness dict)"""
     out = []
     for k in load():
-        if k.get("status") != "known":
+        # known findings: expected to fail (KNOWN-FINDING); fixed findings: regression inputs that must pass
+        if k.get("status") not in ("known", "fixed"):
             continue
         if prop not in k.get("properties", [k.get("property")]):
             continue
